@@ -3,7 +3,7 @@ from __future__ import annotations
 
 import ast
 
-from .. import astu, flow, types
+from .. import astu, evid, flow, types
 from ..cfg import cfg_of
 from ..model import AnalysisError
 from ..report import key_of
@@ -45,14 +45,15 @@ def r1(R, repo):
       continue
     if f.qual in READ_ONLY_SCOPES:
       mf = astu.kwarg(st.value, 'mutable_filter')
-      R.check(astu.is_const(mf, False), key + ' read-only', (f, st), '%s does not repack its scope, which is only sound with mutable_filter=False' % f.qual, msg_ok=READ_ONLY_SCOPES[f.qual])
+      R.check(astu.is_const(mf, False), key + ' read-only', (f, st), evidence=mf is None or isinstance(mf, ast.Constant), msg_ok=READ_ONLY_SCOPES[f.qual], msg_fail='%s does not repack its scope, which is only sound with mutable_filter=False' % f.qual)
       continue
     rp = [x for x in astu.func_calls(f) if astu.call_name(x) in ('repack_fn', 'repack') and x.args and astu.src(x.args[0]) == name]
     un = [n for u in used_by_user for n in c.nodes_for(u)]
     rn = [n for x in rp for n in c.nodes_for(x)]
     # map_variables re-creates `scopes` a second time; evaluate per definition: the last user call of each definition
     ok = bool(rn) and all(c.must_pass(u, c.exit, rn, avoid_edges=c.exc_edges()) for u in un)
-    R.check(ok, key + ' repacked on every path', (f, st),
+    rp_any = [x for x in astu.func_calls(f) if astu.call_name(x) in ('repack_fn', 'repack')]
+    R.judge(bool(rp_any) or not evid.calls_deep(repo, f, evid.call_named('repack_fn', 'repack')), ok, key + ' repacked on every path', (f, st),
             'a scope passed to user code in %s does not reach repack_fn(%s) on every path: variable updates made by the user function would be dropped (and the inner scope left valid)' % (f.qual, name),
             witness=c.witness(un[0], c.exit, avoid=rn) if un and not ok else None)
     if ok:
@@ -74,11 +75,13 @@ def r2(R, repo):
   w = mod.func('pack.wrapper')
   c = cfg_of(w)
   pubs = [n for x in astu.func_calls(w) if astu.call_name(x) == 'publish_results_fn' for n in c.nodes_for(x)]
-  if not pubs:
+  if not pubs and evid.calls_deep(repo, w, evid.call_named('publish_results_fn')):
+    R.unsure(key_of(w, 'publish exactly once'), w, 'publish_results_fn is called from a helper')
+  elif not pubs:
     R.fail(key_of(w, 'publish exactly once'), w, 'pack.wrapper never calls publish_results_fn: updates made inside a lifted transform are lost')
   else:
     ok, why = c.exactly_once_to_exit(pubs)
-    R.check(ok, key_of(w, 'publish exactly once'), w, 'pack.wrapper must call publish_results_fn exactly once on every path: %s' % why)
+    R.check(ok, key_of(w, 'publish exactly once'), w, 'pack.wrapper must call publish_results_fn exactly once on every path: %s' % why, evidence=True)
     calls = [x for x in astu.func_calls(w) if astu.src(x.func) == 'fn']
     outs = {astu.src(astu.enclosing_stmt(x).targets[0].elts[1]) for x in calls if isinstance(astu.enclosing_stmt(x), ast.Assign) and isinstance(astu.enclosing_stmt(x).targets[0], ast.Tuple)}
     pc = [x for x in astu.func_calls(w) if astu.call_name(x) == 'publish_results_fn']
@@ -87,19 +90,16 @@ def r2(R, repo):
       R.check([astu.src(a) for a in x.args[:4]] == ['scope_fn', 'repack_fn', 'variable_groups_xs_t', 'rng_groups_xs_t'], key_of(w, 'fn(scope_fn, repack_fn, variables, rngs, …)', 'kwargs' if astu.has_star_kwargs(x) else 'no kwargs'), (w, x),
               'the lifted inner function must be called with (scope_fn, repack_fn, variable_groups, rng_groups, …) from _partial_pack')
   others = [f.qual for f in mod.funcs.values() for x in astu.func_calls(f) if astu.call_name(x) == 'publish_results_fn' and f.qual != 'pack.wrapper']
-  R.check(not others, key_of(mod.rel, 'publish_results_fn has one caller'), mod, 'publish_results_fn is also called from %s' % others)
+  R.check(not others, key_of(mod.rel, 'publish_results_fn has one caller'), mod, 'publish_results_fn is also called from %s' % others, evidence=True)
   pf = mod.func('_partial_pack.publish_results_fn')
   c = cfg_of(pf)
   puts = [n for x in astu.func_calls(pf) if astu.src(x.func) == 'scope.put_variable' for n in c.nodes_for(x)]
   tests = [n for n in c.nodes if n.kind == 'if' and 'scope.is_mutable_collection(col_name)' in astu.src(n.ast)]
   R.require(len(puts) == 1, 'publish_results_fn: scope.put_variable not found')
-  if not tests:
-    R.fail(key_of(pf, 'skips collections immutable in the outer scope'), pf, 'publish_results_fn no longer skips collections that are immutable in the outer scope: writes to them would raise or take effect')
-  else:
-    neg = astu.src(tests[0].ast).startswith('not ')
-    R.check(c.edge_guarded(puts[0], tests[0], 'F' if neg else 'T'), key_of(pf, 'skips collections immutable in the outer scope'), pf, 'put_variable must be reached only for collections that are mutable in the outer scope')
+  evid.judge_guard(R, c, puts, evid.call_named('is_mutable_collection'), key_of(pf, 'skips collections immutable in the outer scope'), pf,
+                   'publish_results_fn must skip collections that are immutable in the outer scope (writes to them would raise or take effect)')
   st = [n for n in astu.body_walk(pf.node) if isinstance(n, ast.Subscript) and isinstance(n.ctx, ast.Store)]
-  R.check(not st, key_of(pf, 'writes only through scope.put_variable'), pf, 'publish_results_fn must write through scope.put_variable (mutability and trace-level guards), not by item assignment')
+  R.check(not [x for x in st if 'scope' in astu.src(x.value)], key_of(pf, 'writes only through scope.put_variable'), pf, 'publish_results_fn must write through scope.put_variable (mutability and trace-level guards), not by item assignment', evidence=True)
   rf = mod.func('_partial_pack.repack_fn')
   src = astu.src(rf.node)
   ok = 'inner_scope.invalidate()' in src and "raise ValueError(f'unmapped output variables: {remainder}')" in src and 'in_filter(inner_scope.mutable, key)' in src
@@ -108,7 +108,9 @@ def r2(R, repo):
   rec = [x for x in astu.func_calls(put) if astu.call_name(x) == 'put']
   loops = [n for n in astu.body_walk(put.node) if isinstance(n, ast.For) and astu.src(n.iter) == '%s.items()' % astu.params(put.node)[2]]
   ok = len(rec) == 1 and len(loops) == 1 and any(x is rec[0] for x in ast.walk(loops[0])) and astu.src(rec[0].args[0]) == '%s[%s]' % tuple(astu.params(put.node)[:2])
-  R.check(ok, key_of(put, 'nested dicts merged key by key (identity of child dicts kept)'), put,
+  upd = [x for x in astu.func_calls(put) if astu.call_tail(x) in ('update',) and isinstance(x.func.value, ast.Subscript)]
+  has_merge_branch = any(isinstance(n, ast.Call) and astu.call_name(n) == 'isinstance' and 'dict' in astu.src(n) for n in ast.walk(put.node))
+  R.judge(ok or bool(upd) or (not rec and has_merge_branch), ok, key_of(put, 'nested dicts merged key by key (identity of child dicts kept)'), put,
           'put must merge a mapping into an existing dict entry recursively, key by key: child scopes hold references to their sub-dicts, and replacing or shallow-updating one leaves them stale')
 
 
@@ -128,10 +130,14 @@ def r3(R, repo):
   sf = mod.func('_partial_pack.scope_fn')
   d = types.single_def(sf.node, 'scope_mutable')
   leaves = _filter_leaves(d) if d is not None else None
-  R.check(leaves is not None and sorted(leaves) == ['mutable', 'mutable_filter', 'scope.mutable'], key_of(sf, 'scope_mutable = intersect(scope.mutable, out filters, mutable_filter)'), sf,
+  widened = d is not None and any(isinstance(x, ast.Call) and astu.call_tail(x) == 'union_filters' for x in ast.walk(d))
+  R.judge(leaves is not None or widened, leaves is not None and sorted(leaves) == ['mutable', 'mutable_filter', 'scope.mutable'], key_of(sf, 'scope_mutable = intersect(scope.mutable, out filters, mutable_filter)'), sf,
           'the inner scope\'s mutability must be the intersection of the outer scope\'s mutability, the union of the out filters and mutable_filter (got `%s`): anything wider makes non-lifted collections writable' % astu.short(d))
   ctor = [x for x in astu.func_calls(sf) if astu.call_name(x) == 'Scope']
-  R.check(len(ctor) == 1 and astu.src(astu.kwarg(ctor[0], 'mutable')) == 'scope_mutable', key_of(sf, 'Scope(mutable=scope_mutable)'), sf, 'the inner Scope must be created with mutable=scope_mutable')
+  if len(ctor) == 1:
+    evid.judge_args(R, repo, sf, ctor[0], {'mutable': (None, {'scope_mutable'} | ({astu.src(d)} if d is not None else set()))}, key_of(sf, 'Scope(mutable=scope_mutable)'), 'the inner Scope must be created with mutable=scope_mutable')
+  else:
+    R.unsure(key_of(sf, 'Scope(mutable=scope_mutable)'), sf, 'Scope(...) not found in scope_fn')
   defs_m = [x for x in flow.defs(sf, 'mutable')]
   ok = len(defs_m) == 2 and any(astu.is_const(x[0], False) for x in defs_m if not isinstance(x[0], tuple)) and any(astu.src(x[0]) == 'union_filters(mutable, out_filter)' for x in defs_m if not isinstance(x[0], tuple))
   R.check(ok, key_of(sf, 'mutable = union of the out filters'), sf, '`mutable` must start at False and accumulate union_filters over out_variable_filters')
@@ -179,7 +185,7 @@ def r4(R, repo):
       n += 1
       if unp and n_in is not None:
         got = len(unp[0].targets[0].elts)
-        R.check(got == n_in, key_of(inner, 'unpacks %d in-groups' % n_in), (inner, unp[0]), '%s declares %d in-filters but unpacks variable_groups into %d names' % (q, n_in, got))
+        R.check(got == n_in, key_of(inner, 'unpacks %d in-groups' % n_in), (inner, unp[0]), evidence=True, msg_fail= '%s declares %d in-filters but unpacks variable_groups into %d names' % (q, n_in, got))
       else:
         R.ok(key_of(inner, 'in-groups passed through'), inner)
       # returned groups
@@ -189,7 +195,7 @@ def r4(R, repo):
           g = r_.value.elts[1]
           ln = _literal_tuple_len(inner, g)
           if ln is not None:
-            R.check(ln == n_out, key_of(inner, 'returns %d out-groups' % n_out), (inner, r_), '%s declares %d out-filters but returns %d variable groups' % (q, n_out, ln))
+            R.check(ln == n_out, key_of(inner, 'returns %d out-groups' % n_out), (inner, r_), evidence=True, msg_fail= '%s declares %d out-filters but returns %d variable groups' % (q, n_out, ln))
   R.require(n >= 12, 'expected >= 12 pack() uses, found %d' % n)
 
 
@@ -201,7 +207,7 @@ def r5(R, repo):
     fp = types.single_def(inner.node, 'fingerprint')
     mu = types.single_def(inner.node, 'mutable')
     ok = isinstance(fp, ast.Tuple) and [astu.src(e) for e in fp.elts] == ['mutable', 'module_hash_key'] and mu is not None and 'scope.mutable' in astu.src(mu) and 'for scope in scopes' in astu.src(mu)
-    R.check(ok, key_of(inner, 'fingerprint = (every scope\'s mutable, module hash key)'), inner, 'the lifted jit fingerprint must contain the mutability of every scope and the module hash key')
+    R.judge(isinstance(fp, ast.Tuple) and mu is not None, ok, key_of(inner, 'fingerprint = (every scope\'s mutable, module hash key)'), inner, 'the lifted jit fingerprint must contain the mutability of every scope and the module hash key')
     j = mod.func(jitted)
     R.check(astu.params(j.node)[0] == 'fingerprint' and 'hash_key = fingerprint[1]' in astu.src(j.node), key_of(j, 'fingerprint is the first (static) argument'), j, 'the traced function must take the fingerprint as its first argument')
   jf = mod.func('jit')
@@ -216,7 +222,7 @@ def r5(R, repo):
   # module fields: everything but parent, name
   excl = [n for n in ast.walk(f.node) if isinstance(n, ast.Compare) and astu.src(n.left) == 'field.name' and isinstance(n.ops[0], ast.NotIn)]
   ok = len(excl) == 1 and sorted(ast.literal_eval(excl[0].comparators[0])) == ['name', 'parent']
-  R.check(ok, key_of(f, 'all dataclass fields except parent, name'), f, 'the module fingerprint must cover every dataclass field except exactly `parent` and `name`')
+  R.judge(len(excl) == 1, ok, key_of(f, 'all dataclass fields except parent, name'), f, 'the module fingerprint must cover every dataclass field except exactly `parent` and `name`')
   # exported state fields are fingerprinted
   exp = repo.func(MO, '_ModuleInternalState.export')
   ctor = [x for x in astu.func_calls(exp) if astu.call_name(x) == '_ModuleInternalState']
@@ -224,18 +230,21 @@ def r5(R, repo):
   exported = sorted(k.arg for k in ctor[0].keywords)
   fps = sorted(astu.const_str(x.args[0]) for x in ast.walk(f.node) if isinstance(x, ast.Call) and astu.call_name(x) == '_get_fingerprint' and x.args and astu.const_str(x.args[0]) and len(x.args) == 2 and 'obj._state.' in astu.src(x.args[1]))
   for fld in exported:
-    R.check(fld in fps, key_of(f, 'exported state field %s fingerprinted' % fld), f, '_ModuleInternalState.export carries `%s` across a transform boundary but the jit fingerprint ignores it: a changed value would reuse a stale trace' % fld)
+    R.judge(len(fps) >= 2, fld in fps, key_of(f, 'exported state field %s fingerprinted' % fld), f, '_ModuleInternalState.export carries `%s` across a transform boundary but the jit fingerprint ignores it: a changed value would reuse a stale trace' % fld)
   for fld in fps:
     m_ = [x for x in ast.walk(f.node) if isinstance(x, ast.Call) and astu.call_name(x) == '_get_fingerprint' and astu.const_str(x.args[0]) == fld]
-    R.check(astu.src(m_[0].args[1]) == 'obj._state.%s' % fld, key_of(f, 'state field %s fingerprints its own value' % fld), f, 'fingerprint entry %r must hash obj._state.%s' % (fld, fld))
+    R.check(astu.src(m_[0].args[1]) == 'obj._state.%s' % fld, key_of(f, 'state field %s fingerprints its own value' % fld), f, evidence=astu.src(m_[0].args[1]).startswith('obj._state.'), msg_fail= 'fingerprint entry %r must hash obj._state.%s' % (fld, fld))
   want = {'mutable': 'scope.mutable', 'flags': 'scope.flags', 'rng_counts': 'scope.rng_counters', 'reservations': 'scope.reservations'}
   for nm, expr in want.items():
     m_ = [x for x in ast.walk(f.node) if isinstance(x, ast.Call) and astu.call_name(x) == '_get_fingerprint' and astu.const_str(x.args[0]) == nm]
-    R.check(len(m_) == 1 and astu.src(m_[0].args[1]) == expr, key_of(f, 'scope.%s fingerprinted in full' % nm), f,
+    got_ = m_[0].args[1] if len(m_) == 1 else None
+    partial = got_ is not None and any(isinstance(g_, ast.AST) and astu.src(g_) != expr and expr in astu.src(g_) and any(isinstance(x, (ast.DictComp, ast.ListComp, ast.SetComp, ast.GeneratorExp, ast.Subscript)) or (isinstance(x, ast.Call) and astu.call_tail(x) in ('get', 'pop')) for x in ast.walk(g_))
+                                       for g_ in evid.expand(f, got_))
+    R.judge(got_ is not None and (expr in evid.arg_text(f, got_) or partial), got_ is not None and expr in evid.arg_text(f, got_), key_of(f, 'scope.%s fingerprinted in full' % nm), f,
             'the scope part of the jit fingerprint must hash the whole `%s` (found `%s`): call-dependent bookkeeping such as child rng counters is baked into the trace as static data' % (expr, astu.short(m_[0].args[1]) if m_ else 'nothing'))
   rc = repo.func(MO, '_ModuleInternalState.reimport')
   got = sorted(n.attr for n in astu.body_walk(rc.node) if isinstance(n, ast.Attribute) and isinstance(n.ctx, ast.Store))
-  R.check(got == ['autoname_cursor', 'in_compact_method', 'in_setup', 'is_initialized'], key_of(rc, 'reimport copies the transient fields back'), rc, 'reimport must copy in_compact_method, in_setup, is_initialized and autoname_cursor back (got %s)' % got)
+  R.judge(len(got) >= 2, set(got) >= {'autoname_cursor', 'in_compact_method', 'in_setup', 'is_initialized'}, key_of(rc, 'reimport copies the transient fields back'), rc, 'reimport must copy in_compact_method, in_setup, is_initialized and autoname_cursor back (got %s)' % got)
 
 
 WRAPPERS = ['module_class_lift_transform', 'decorator_lift_transform', 'module_class_lift_transform_cached', 'decorator_lift_transform_cached']
@@ -281,13 +290,17 @@ def r6(R, repo):
     ev = _events(repo, mod, w)
     core = [e for e in ev if e in base]
     key = key_of(f, 'protocol event order')
-    R.check(core == base, key, f, '%s deviates from the shared protocol %s: got %s (e.g. a missing reimport loses the auto-name cursors, so init trees differ)' % (w, base, core))
+    missing = [e for e in base if e not in core]
+    marker = {'export': 'export(', 'set_module_scopes': 'set_module_scopes(', 'install_state': "'_state'", 'call': 'cloned', 'reimport': 'reimport(', 'check_return': '_test_transformed_return_values(', 'get_module_scopes': 'get_module_scopes(', 'trafo': 'trafo_fn('}
+    helpers = [r_ for r_ in (repo.resolve_call(mod, x, f) for x in ast.walk(f.node) if isinstance(x, ast.Call)) if r_ is not None and getattr(r_, 'mod', None) is mod and r_.qual.split('.')[0] not in WRAPPERS]
+    moved = any(marker[e] in astu.src(h.node) for e in missing for h in helpers)
+    R.judge(core == base or (bool(missing) and not moved), core == base, key, f, '%s deviates from the shared protocol %s: got %s (e.g. a missing reimport loses the auto-name cursors, so init trees differ)' % (w, base, core))
     if w.endswith('_cached'):
       ok = 'fork_rngs' in ev and 'hash_proxy' in ev and ev.index('fork_rngs') < ev.index('set_module_scopes') and ev.index('hash_proxy') > ev.index('get_module_scopes')
       R.check(ok, key_of(f, 'cached variant forks rngs around everything and hashes after collecting scopes'), f, '%s must run under fork_rngs(self) and build the hash proxy after get_module_scopes' % w)
     # install_state must hand the clone its own export, and the call must use the clone
     inst = [n for n in ast.walk(f.node) if isinstance(n, ast.Call) and astu.call_name(n) == 'object.__setattr__' and "'_state'" in astu.src(n)]
-    R.check(len(inst) == 1 and astu.src(inst[0].args[0]) == 'cloned' and astu.src(inst[0].args[2]) == 'state.export()', key_of(f, 'clone gets a fresh export of the state'), f, 'the clone must receive state.export(), not the shared state object')
+    R.judge(len(inst) == 1 and len(inst[0].args) == 3, len(inst) == 1 and astu.src(inst[0].args[0]) == 'cloned' and any(t.endswith('.export()') for t in evid.arg_text(f, inst[0].args[2])), key_of(f, 'clone gets a fresh export of the state'), f, 'the clone must receive state.export(), not the shared state object')
 
 
 @rule('C05.R7', 'K5', 5, 'get_module_scopes and set_module_scopes enumerate scopes in the same order')
@@ -296,13 +309,14 @@ def r7(R, repo):
   g, s = mod.func('get_module_scopes'), mod.func('set_module_scopes')
   gs, ss = mod.func('get_module_scopes.get_scopes'), mod.func('set_module_scopes.set_scopes')
   ga, sa = types.single_def(gs.node, 'attrs'), types.single_def(ss.node, 'attrs')
-  R.check(ga is not None and sa is not None and astu.src(ga) == astu.src(sa) and isinstance(ga, ast.DictComp), key_of(mod.rel, 'same attribute dict on both sides'), gs,
+  R.judge(isinstance(ga, ast.DictComp) and isinstance(sa, ast.DictComp), ga is not None and sa is not None and astu.src(ga) == astu.src(sa), key_of(mod.rel, 'same attribute dict on both sides'), gs,
           'get_scopes and set_scopes must build the same `attrs` dict (same fields, same filter): `%s` vs `%s`' % (astu.short(ga), astu.short(sa)))
   # both traverse that dict with jax.tree_util (sorted-key order), not in field-declaration order
   gl = [n for n in astu.body_walk(gs.node) if isinstance(n, ast.For)]
   okg = len(gl) == 1 and astu.src(gl[0].iter) == 'jax.tree_util.tree_leaves(attrs)'
   sm = [x for x in astu.func_calls(ss) if astu.call_name(x) == 'jax.tree_util.tree_map' and astu.src(x.args[-1]) == 'attrs']
-  R.check(okg and len(sm) == 1 and astu.src(sm[0].args[0]) == 'set_scopes_inner', key_of(mod.rel, 'both traverse attrs through jax.tree_util'), gs,
+  decl_order = [n for n in gl if 'dataclasses.fields' in astu.src(n.iter) or '__dataclass_fields__' in astu.src(n.iter)]
+  R.judge((okg and len(sm) == 1) or bool(decl_order), okg and len(sm) == 1 and astu.src(sm[0].args[0]) == 'set_scopes_inner' and not decl_order, key_of(mod.rel, 'both traverse attrs through jax.tree_util'), gs,
           'scopes of attribute sub-modules must be collected with jax.tree_util.tree_leaves(attrs) and re-bound with jax.tree_util.tree_map(…, attrs): the same (sorted-key) order on both sides; '
           'iterating dataclass fields in declaration order on one side binds sub-modules to each other\'s scopes')
   # module itself: attributes first, own scope last (both)
@@ -331,7 +345,7 @@ def r7(R, repo):
   R.check('assert len(scopes) == idx' in astu.src(s.node), key_of(s, 'all scopes consumed'), s, 'set_module_scopes must assert that every collected scope was consumed')
   n_idx = len([n for n in ast.walk(s.node) if isinstance(n, ast.AugAssign) and astu.src(n) == 'idx += 1'])
   n_app = len([n for n in ast.walk(g.node) if isinstance(n, ast.Call) and astu.src(n.func) == 'scopes.append'])
-  R.check(n_idx == n_app == 4, key_of(mod.rel, 'four producer and four consumer sites'), g, 'get_module_scopes appends at %d sites, set_module_scopes consumes at %d' % (n_app, n_idx))
+  R.check(n_idx == n_app, key_of(mod.rel, 'as many producer as consumer sites'), g, 'get_module_scopes appends at %d sites, set_module_scopes consumes at %d' % (n_app, n_idx))
 
 
 PLUMBING = {
@@ -369,7 +383,7 @@ def check_lift_plumbing(R, repo, name, callee, opts, alias=None):
         v = call.args[i]
     if not (isinstance(v, ast.Name) and v.id == o) or a not in lps:
       missing.append(o)
-  R.check(not missing, key_of(f, 'forwards %s' % ', '.join(opts)), (f, call), 'nn.%s does not forward %s unchanged to %s (or the callee has no such parameter)' % (name, missing, callee))
+  R.check(not missing, key_of(f, 'forwards %s' % ', '.join(opts)), (f, call), evidence=not astu.has_star_kwargs(call), msg_fail='nn.%s does not forward %s unchanged to %s (or the callee has no such parameter)' % (name, missing, callee))
 
 
 @rule('C05.R8', 'K6', 6, 'options of nn.jit / checkpoint / map_variables / cond / switch / while_loop reach the lifted core and jax unchanged')
